@@ -244,6 +244,36 @@ def run(res, tier, seed):
         if kind == "loops":
             return "main:\n" + "".join(f"L{i}:\n    addi a0, a0, 1\n    bnez a0, L{i}\n" for i in range(k)) + "    li a7, 10\n    ecall\n"
         return "#" * k
+    # long runs of one construct that yields no statement: anything that handles them by calling itself
+    # instead of looping runs out of stack (debug frames are large: both builds are run)
+    runs = {"blank-lines": "\n", "blank-crlf": "\r\n", "space-lines": "  \t\n", "comma-lines": ", ,\n",
+            "comment-lines": "# c\n", "label-lines": "L{i}:\n", "unknown-chars": "@\n", "bad-lines": "foo a0\n",
+            "directive-lines": ".align 2\n", "nop-lines": "    nop\n", "open-parens": "( ", "lone-dots": ".\n",
+            "include-missing": '.include "nope{i}.s"\n'}
+    silent = {"blank-lines", "blank-crlf", "space-lines", "comma-lines", "comment-lines"}
+    for kind, unit in runs.items():
+        for k in ((300, 20000) if tier == "quick" else (300, 20000, 100000)):
+            body = "".join(unit.replace("{i}", str(i)) for i in range(k))
+            src_ = "main:\n    li a0, 1\n" + body + "    li a7, 10\n    ecall\n"
+            for binary, prof in ((RVH_DEBUG, "debug"), (RVH_RELEASE, "release")):
+                # constructs that produce a node or a diagnostic per line cost (polynomial) analysis time:
+                # the unoptimised build gets the short run only, the long ones go to the release build
+                if prof == "debug" and k > 300 and kind not in silent:
+                    continue
+                if k > 300 and kind not in silent:
+                    # one diagnostic per line costs quadratic time in the real code (2 500 `nop` lines take
+                    # about 36 s in the optimised build - polynomial, so not a violation, but slow): the long
+                    # run of these kinds is 2 000 lines
+                    if k > 20000:
+                        continue
+                    body = "".join(unit.replace("{i}", str(i)) for i in range(2000))
+                    src_ = "main:\n    li a0, 1\n" + body + "    li a7, 10\n    ecall\n"
+                out = run_lines_isolated(binary, [pipe_req("parse,run", [("m.s", src_)])], timeout=120, chunk=1)
+                stats["big_inputs"] += 1
+                if out[0] and out[0][0].startswith(("PANIC", "HANG", "CRASH")) and first is None:
+                    first = {"what": f"a run of {k} x {kind} [{prof} build]: {out[0][0][:80]}",
+                             "generator": f"main + {k} x {unit!r} + exit",
+                             "replay_cmd": "python3 -c \"print('main:\\n li a0, 1\\n' + %r * %d + ' li a7, 10\\n ecall')\" > /tmp/x.s && %s lint /tmp/x.s" % (unit, k, RVA)}
     sizes = {"dots": 40000, "quotes": 40000, "comment": 200000, "funcs": 250, "chain": 2000, "loops": 600}
     if tier != "quick":
         sizes = {k: v * 2 for k, v in sizes.items()}
